@@ -198,8 +198,10 @@ def _check_pair(r, a, b):
     ea = [T.enc_tlv(t, v) for t, v in a]
     eb = [T.enc_tlv(t, v) for t, v in b]
     want = len(a) <= len(b) and all(x == y for x, y in zip(a, b))
-    forms_a = [ea, T.enc_tlv(7, b''.join(ea)), ref_name_canonical(a)]
-    forms_b = [eb, [memoryview(e) for e in eb], ref_name_canonical(b)]
+    forms_a = [ea, T.enc_tlv(7, b''.join(ea)), ref_name_canonical(a), [ref_comp_canonical(t, v) for t, v in a],
+               [ref_comp_canonical(t, v) if i % 2 else ea[i] for i, (t, v) in enumerate(a)], tuple(ea)]
+    forms_b = [eb, [memoryview(e) for e in eb], ref_name_canonical(b), [ref_comp_canonical(t, v) for t, v in b],
+               [eb[i] if i % 2 else ref_comp_canonical(t, v) for i, (t, v) in enumerate(b)]]
     for fa in forms_a:
         for fb in forms_b:
             if bool(Name.is_prefix(fa, fb)) != want:
@@ -227,6 +229,12 @@ def _check_pair(r, a, b):
 @st.composite
 def _pair(draw):
     a = draw(S.name(0, 8))
+    if draw(st.integers(0, 7)) == 0:
+        # one long component whose URI text is much longer than its value (many escaped bytes): lengths 80..260
+        n = draw(st.sampled_from([84, 85, 100, 126, 127, 200, 250, 251, 252, 253, 254, 260]))
+        v = draw(st.binary(min_size=n, max_size=n))
+        a.insert(draw(st.integers(0, len(a))), [draw(st.sampled_from([8, 8, 32, 300])), v.hex()])
+        a = a[:8]
     mode = draw(st.integers(0, 5))
     b = None
     if mode == 0:
